@@ -17,9 +17,13 @@ Open Scope N_scope.
 
 Definition name := N.
 
-Record col := mkcol { cname : name; cty : N; cnull : bool; cpk : bool }.
+(* cty: 1 INT, 2 BIGINT, 3 VARCHAR(10), 4 VARCHAR(10) COLLATE utf8mb4_0900_ai_ci; cdef: literal DEFAULT; ccom: COMMENT (0 = none);
+   csrc = Some x: hidden system column generated for a functional index over column x *)
+Record col := mkcol { cname : name; cty : N; cnull : bool; cpk : bool; cdef : option N; ccom : N; csrc : option name }.
+Record cspec := mkcs { sname : name; sty : N; snull : bool; sdef : option N; scom : N }.
 (* itab: the table name the index was created under (Index.TableName is not updated by RENAME TABLE) *)
-Record idx := mkidx { iname : name; icols : list name; iuniq : bool; itab : name }.
+(* ipre: prefix lengths, [] when no key part has one, else one entry per key part AT CREATION (0 = none) *)
+Record idx := mkidx { iname : name; icols : list name; iuniq : bool; itab : name; ipre : list N }.
 Record chk := mkchk { kname : name; kcol : name; kbound : N }.
 (* tmap: the table's index map has been allocated (a secondary index was created at some point); TableData.copy
    shares an allocated map, so an index created by a statement that later fails survives only in that case *)
@@ -35,13 +39,14 @@ Definition empty : cat := mkcat [] [] [] [] [].
 Inductive pos := PLast | PFirst | PAfter (c : name).
 
 Inductive op :=
-| CreateTable (t : name) (cs : list (name * N * bool)) (pk : list name)
+| CreateTable (t : name) (cs : list cspec) (pk : list name)
 | DropTable (t : name)
 | RenameTable (t u : name)
-| AddColumn (t c : name) (ty : N) (nl : bool) (p : pos)
+| AddColumn (t : name) (s : cspec) (p : pos)
 | DropColumn (t c : name)
 | RenameColumn (t c c' : name)
-| CreateIndex (t i : name) (cs : list name) (uq : bool)
+| CreateIndex (t i : name) (cs : list name) (pre : list N) (uq : bool)
+| CreateFnIndex (t i x : name)
 | DropIndex (t i : name)
 | AddPK (t : name) (cs : list name)
 | DropPK (t : name)
@@ -88,7 +93,11 @@ Definition with_fks (c : cat) (l : list fk) : cat := mkcat (tables c) l (views c
 Definition PRIMARY : name := 22608472919069273.
 
 (* primary key columns as GetIndexes computes them: Schema[ord].Name for ord in PkOrdinals *)
-Definition dflt_col : col := mkcol 0 0 true false.
+Definition dflt_col : col := mkcol 0 0 true false None 0 None.
+Definition visible (c : col) : bool := match csrc c with None => true | Some _ => false end.
+(* the hidden column of functional index i *)
+Definition hid (i : name) : name := i + 4294967296.
+Definition is_string (ty : N) : bool := N.eqb ty 3 || N.eqb ty 4.
 Definition pk_cols (t : tbl) : list name := map (fun o => cname (nth o (tcols t) dflt_col)) (tpk t).
 
 (* insertion sort of the secondary indexes by name (sort.Slice by ID) *)
@@ -101,7 +110,7 @@ Definition sort_idx (l : list idx) : list idx := fold_right ins_idx [] l.
 
 (* GetIndexes: PRIMARY first (when PkOrdinals is non-empty), then the others sorted by name *)
 Definition all_idx (t : tbl) : list idx :=
-  (if isnil (tpk t) then [] else [mkidx PRIMARY (pk_cols t) true (tname t)]) ++ sort_idx (tidx t).
+  (if isnil (tpk t) then [] else [mkidx PRIMARY (pk_cols t) true (tname t) []]) ++ sort_idx (tidx t).
 
 (* ExtendedExpressions: index columns followed by the primary key columns not yet present *)
 Definition ext_cols (t : tbl) (i : idx) : list name :=
@@ -110,6 +119,7 @@ Definition ext_cols (t : tbl) (i : idx) : list name :=
 (* FindFKIndexWithPrefix (existence only) *)
 Definition fk_index_ok (t : tbl) (cs : list name) (ext : bool) (ignore : option name) : bool :=
   existsb (fun i => (match ignore with Some g => negb (N.eqb (iname i) g) | None => true end)
+                    && isnil (ipre i)      (* indexes with prefix lengths are ignored *)
                     && prefixb cs (if ext then ext_cols t i else icols i)) (all_idx t).
 
 (* ---------- the PkOrdinals bookkeeping of memory/table.go ---------- *)
@@ -162,9 +172,11 @@ Definition view_resolves (c : cat) (v : view) : bool :=
 (* ---------- one DDL statement ---------- *)
 Definition ren (a b x : name) : name := if N.eqb x a then b else x.
 
-Definition new_table (t : name) (cs : list (name * N * bool)) (pk : list name) : tbl :=
-  let names := map (fun p => fst (fst p)) cs in
-  mktbl t (map (fun p => let '(n, ty, nl) := p in mkcol n ty (nl && negb (mem n pk)) (mem n pk)) cs)
+Definition spec_col (pk : list name) (s : cspec) : col :=
+  mkcol (sname s) (sty s) (snull s && negb (mem (sname s) pk)) (mem (sname s) pk) (sdef s) (scom s) None.
+Definition new_table (t : name) (cs : list cspec) (pk : list name) : tbl :=
+  let names := map sname cs in
+  mktbl t (map (spec_col pk) cs)
         (map (fun n => index_of n names) pk) [] [] false.
 
 Fixpoint remove_first_trig (g : name) (l : list trig) : list trig :=
@@ -177,7 +189,7 @@ Definition drop_col_tbl (x : name) (t : tbl) : tbl :=
   let d := index_of x (colnames t) in
   mktbl (tname t) (filter (fun c => negb (N.eqb (cname c) x)) (tcols t)) (unbump_pk d (tpk t))
         (filter (fun i => negb (isnil (icols i)))
-                (map (fun i => mkidx (iname i) (filter (fun c => negb (N.eqb c x)) (icols i)) (iuniq i) (itab i)) (tidx t)))
+                (map (fun i => mkidx (iname i) (filter (fun c => negb (N.eqb c x)) (icols i)) (iuniq i) (itab i) (ipre i)) (tidx t)))
         (filter (fun k => negb (N.eqb (kcol k) x)) (tchk t)) (tmap t).
 
 Definition drop_chk_col (x : name) (t : tbl) : tbl :=
@@ -185,24 +197,39 @@ Definition drop_chk_col (x : name) (t : tbl) : tbl :=
 
 Definition rename_col_tbl (x y : name) (t : tbl) : tbl :=
   let m := pk_name_map O (pk_cols t) in
-  let cs := map (fun c => if N.eqb (cname c) x then mkcol y (cty c) (cnull c) (cpk c) else c) (tcols t) in
+  let cs := map (fun c => if N.eqb (cname c) x then mkcol y (cty c) (cnull c) (cpk c) (cdef c) (ccom c) (csrc c) else c) (tcols t) in
   mktbl (tname t) cs (rebuild_pk m O cs (map (fun _ => O) (tpk t)))
-        (map (fun i => mkidx (iname i) (map (ren x y) (icols i)) (iuniq i) (itab i)) (tidx t)) (tchk t) (tmap t).
+        (map (fun i => mkidx (iname i) (map (ren x y) (icols i)) (iuniq i) (itab i) (ipre i)) (tidx t)) (tchk t) (tmap t).
 
-Definition add_col_tbl (x : name) (ty : N) (nl : bool) (p : pos) (t : tbl) : tbl :=
+Definition add_col_tbl (s : cspec) (p : pos) (t : tbl) : tbl :=
   let k := match p with PFirst => O | PLast => length (tcols t) | PAfter a => S (index_of a (colnames t)) end in
-  mktbl (tname t) (insert_at k (mkcol x ty nl false) (tcols t)) (bump_pk k (tpk t)) (tidx t) (tchk t) (tmap t).
+  mktbl (tname t) (insert_at k (spec_col [] s) (tcols t)) (bump_pk k (tpk t)) (tidx t) (tchk t) (tmap t).
 
 Definition add_pk_tbl (cs : list name) (t : tbl) : tbl :=
-  mktbl (tname t) (map (fun c => if mem (cname c) cs then mkcol (cname c) (cty c) false true else c) (tcols t))
+  mktbl (tname t) (map (fun c => if mem (cname c) cs then mkcol (cname c) (cty c) false true (cdef c) (ccom c) (csrc c) else c) (tcols t))
         (map (fun n => index_of n (colnames t)) cs) (tidx t) (tchk t) (tmap t).
 
 Definition drop_pk_tbl (t : tbl) : tbl :=
-  mktbl (tname t) (map (fun c => mkcol (cname c) (cty c) (cnull c) false) (tcols t)) [] (tidx t) (tchk t) (tmap t).
+  mktbl (tname t) (map (fun c => mkcol (cname c) (cty c) (cnull c) false (cdef c) (ccom c) (csrc c)) (tcols t)) [] (tidx t) (tchk t) (tmap t).
 
 Definition add_idx_tbl (i : idx) (t : tbl) : tbl := mktbl (tname t) (tcols t) (tpk t) (tidx t ++ [i]) (tchk t) true.
 Definition drop_idx_tbl (n : name) (t : tbl) : tbl :=
   mktbl (tname t) (tcols t) (tpk t) (filter (fun i => negb (N.eqb (iname i) n)) (tidx t)) (tchk t) (tmap t).
+(* CREATE INDEX i ON t ((x + 1)): a hidden generated column is appended to the schema and indexed *)
+Definition add_fn_idx_tbl (i x : name) (t : tbl) : tbl :=
+  let nl := match find_col x t with Some cl => cnull cl | None => true end in
+  mktbl (tname t) (tcols t ++ [mkcol (hid i) 2 nl false None 0 (Some x)]) (tpk t)
+        (tidx t ++ [mkidx i [hid i] false (tname t) []]) (tchk t) true.
+(* DROP INDEX: the hidden column of a functional index goes with it (a DropColumn on the schema) *)
+Definition drop_idx_full_tbl (n : name) (t : tbl) : tbl :=
+  let t1 := drop_idx_tbl n t in
+  if existsb (fun c => negb (visible c) && N.eqb (cname c) (hid n)) (tcols t1)
+  then mktbl (tname t1) (filter (fun c => negb (N.eqb (cname c) (hid n))) (tcols t1))
+             (unbump_pk (index_of (hid n) (colnames t1)) (tpk t1)) (tidx t1) (tchk t1) (tmap t1)
+  else t1.
+Definition fn_depends (x : name) (t : tbl) : bool :=
+  existsb (fun c => match csrc c with Some y => N.eqb y x | None => false end) (tcols t).
+
 Definition add_chk_tbl (k : chk) (t : tbl) : tbl := mktbl (tname t) (tcols t) (tpk t) (tidx t) (tchk t ++ [k]) (tmap t).
 Definition drop_chk_tbl (n : name) (t : tbl) : tbl :=
   mktbl (tname t) (tcols t) (tpk t) (tidx t) (filter (fun k => negb (N.eqb (kname k) n)) (tchk t)) (tmap t).
@@ -212,7 +239,7 @@ Definition col_types (t : tbl) (cs : list name) : list (option N) :=
 Fixpoint otys_eqb (a b : list (option N)) : bool :=
   match a, b with
   | [], [] => true
-  | Some x :: a', Some y :: b' => N.eqb x y && otys_eqb a' b'
+  | Some x :: a', Some y :: b' => (N.eqb x y || (is_string x && is_string y)) && otys_eqb a' b'
   | _, _ => false
   end.
 
@@ -227,7 +254,7 @@ Definition upd (c : cat) (n : name) (ok : tbl -> bool) (f : tbl -> tbl) : bool *
 Definition step (o : op) (c : cat) : bool * cat :=
   match o with
   | CreateTable t cs pk =>
-    let names := map (fun p => fst (fst p)) cs in
+    let names := map sname cs in
     if negb (has_tbl t c) && negb (isnil cs) && nodupb names
        && forallb (fun n => mem n names) pk && nodupb pk
     then (* the view-name check runs after the table has been created (buildCreateTable) *)
@@ -253,10 +280,10 @@ Definition step (o : op) (c : cat) : bool * cat :=
       else (false, with_fks c fks')
     | None => (false, c)
     end
-  | AddColumn t x ty nl p =>
+  | AddColumn t s p =>
     (* a table left without columns: appending (no FIRST/AFTER) never places the column and panics *)
-    upd c t (fun tb => negb (has_col x tb) && match p with PAfter a => has_col a tb | PLast => negb (isnil (tcols tb)) | PFirst => true end)
-        (add_col_tbl x ty nl p)
+    upd c t (fun tb => negb (has_col (sname s) tb) && match p with PAfter a => has_col a tb | PLast => negb (isnil (tcols tb)) | PFirst => true end)
+        (add_col_tbl s p)
   | DropColumn t x =>
     match find_tbl t c with
     | None => (false, c)
@@ -264,7 +291,8 @@ Definition step (o : op) (c : cat) : bool * cat :=
       match find_col x tb with
       | None => (false, c)
       | Some cl =>
-        if fk_uses_col c t x || cpk cl || mem x (pk_cols tb) || (isnil (tpk tb) && existsb (fun i => iuniq i && mem x (icols i)) (tidx tb))
+        if fn_depends x tb then (false, c)      (* "has a functional index dependency" *)
+        else if fk_uses_col c t x || cpk cl || mem x (pk_cols tb) || (isnil (tpk tb) && existsb (fun i => iuniq i && mem x (icols i)) (tidx tb))
         then (* column of a foreign key (error), primary key column (by flag or by PkOrdinals, which differ once a rename
                 has garbled the key) or column of a UNIQUE index of a keyless table
                 (panic in the table rewrite): all after dropConstraints has removed the checks on the column *)
@@ -273,7 +301,8 @@ Definition step (o : op) (c : cat) : bool * cat :=
       end
     end
   | RenameColumn t x y =>
-    match upd c t (fun tb => has_col x tb && negb (has_col y tb) && negb (existsb (fun k => N.eqb (kcol k) x) (tchk tb)))
+    match upd c t (fun tb => has_col x tb && negb (has_col y tb) && negb (existsb (fun k => N.eqb (kcol k) x) (tchk tb))
+                             && negb (fn_depends x tb))
               (rename_col_tbl x y) with
     | (true, c') =>
       (true, with_fks c' (map (fun f => mkfk (fname f) (ftable f)
@@ -282,15 +311,21 @@ Definition step (o : op) (c : cat) : bool * cat :=
                                              (if N.eqb (fparent f) t then map (ren x y) (fpcols f) else fpcols f)) (fks c')))
     | r => r
     end
-  | CreateIndex t i cs uq =>
+  | CreateIndex t i cs pre uq =>
     upd c t (fun tb => negb (has_idx i tb) && negb (N.eqb i PRIMARY) && negb (isnil cs) && nodupb cs
-                       && forallb (fun x => has_col x tb) cs)
-        (add_idx_tbl (mkidx i cs uq t))
+                       && forallb (fun x => has_col x tb) cs
+                       && (isnil pre || (Nat.eqb (length pre) (length cs) && existsb (fun l => negb (N.eqb l 0)) pre
+                                         && forallb (fun p => N.eqb (snd p) 0
+                                                              || (match find_col (fst p) tb with Some cl => is_string (cty cl) | None => false end
+                                                                  && N.leb (snd p) 10)) (combine cs pre))))
+        (add_idx_tbl (mkidx i cs uq t pre))
+  | CreateFnIndex t i x =>
+    upd c t (fun tb => negb (has_idx i tb) && negb (N.eqb i PRIMARY) && has_col x tb) (add_fn_idx_tbl i x)
   | DropIndex t i =>
     upd c t (fun tb => has_idx i tb
                        && forallb (fun f => negb (N.eqb (ftable f) t) || fk_index_ok tb (fcols f) false (Some i)) (fks c)
                        && forallb (fun f => negb (N.eqb (fparent f) t) || fk_index_ok tb (fpcols f) true (Some i)) (fks c))
-        (drop_idx_tbl i)
+        (drop_idx_full_tbl i)
   | AddPK t cs =>
     upd c t (fun tb => negb (existsb cpk (tcols tb)) && negb (isnil cs) && nodupb cs && forallb (fun x => has_col x tb) cs)
         (add_pk_tbl cs)
@@ -307,7 +342,7 @@ Definition step (o : op) (c : cat) : bool * cat :=
         let need := negb (fk_index_ok tb cs false None) in
         if need && (has_idx f tb || N.eqb f PRIMARY) then (false, c)
         else
-          let c1 := if need then with_tables c (set_tbl t (add_idx_tbl (mkidx f cs false t) tb) (tables c)) else c in
+          let c1 := if need then with_tables c (set_tbl t (add_idx_tbl (mkidx f cs false t []) tb) (tables c)) else c in
           if existsb (fun g => N.eqb (fname g) f) (fks c) then (false, if tmap tb then c1 else c)
           else (true, with_fks c1 (fks c1 ++ [mkfk f t cs p pcs]))
       else (false, c)
@@ -387,11 +422,13 @@ Fixpoint col_keys (m : list (name * N)) (hasPK : bool) (cs : list col) : list N 
 Fixpoint number_from {A} (n : N) (l : list A) : list (N * A) :=
   match l with [] => [] | x :: r => (n, x) :: number_from (n + 1) r end.
 
-(* COLUMNS: table, column, ordinal position, nullable, type, key *)
+Definition def_code (d : option N) : N := match d with Some v => v | None => NUL end.
+(* COLUMNS: table, column, ordinal position, nullable, type (with collation), key, default, comment.
+   The position counts hidden system columns, which are then skipped (getRowsFromTable) *)
 Definition table_columns_rows (t : tbl) : list row :=
   let keys := col_keys (key_map t) (negb (isnil (tpk t))) (tcols t) in
-  map (fun p => let '(n, (c, k)) := p in [tname t; cname c; n; yesno (cnull c); cty c; k])
-      (number_from 1 (combine (tcols t) keys)).
+  map (fun p => let '(n, (c, k)) := p in [tname t; cname c; n; yesno (cnull c); cty c; k; def_code (cdef c); ccom c])
+      (filter (fun p => visible (fst (snd p))) (number_from 1 (combine (tcols t) keys))).
 Definition view_columns_rows (c : cat) (v : view) : list row :=
   match find_tbl (vbase v) c with
   | None => []
@@ -399,19 +436,28 @@ Definition view_columns_rows (c : cat) (v : view) : list row :=
     if forallb (fun x => has_col x t) (vcols v)
     then map (fun p => let '(n, x) := p in
                 match find_col x t with
-                | Some cl => [vname v; x; n; yesno (cnull cl); cty cl; EMP]
+                | Some cl => [vname v; x; n; yesno (cnull cl); cty cl; EMP; def_code (cdef cl); 0]
                 | None => [] end) (number_from 1 (vcols v))
     else []
   end.
 Definition columns_rows (c : cat) : list row :=
   flat_map table_columns_rows (tables c) ++ flat_map (view_columns_rows c) (views c).
 
-(* STATISTICS / SHOW INDEXES: table, non_unique, index, seq, column, nullable ("YES" or "") *)
+(* STATISTICS / SHOW INDEXES: table, non_unique, index, seq, column (NULL for an expression), nullable ("YES" or ""),
+   sub_part, expression (its source column) *)
+Definition col_shown (t : tbl) (x : name) : N :=
+  match find_col x t with Some cl => if visible cl then x else NUL | None => x end.
+Definition col_expr (t : tbl) (x : name) : N :=
+  match find_col x t with Some cl => match csrc cl with Some y => y | None => NUL end | None => NUL end.
+Definition sub_part (i : idx) (j : nat) : N := if isnil (ipre i) then NUL else nth j (ipre i) NUL.
+Fixpoint number_nat {A} (n : nat) (l : list A) : list (nat * A) :=
+  match l with [] => [] | x :: r => (n, x) :: number_nat (S n) r end.
 Definition col_nullable (t : tbl) (x : name) : N :=
   match find_col x t with Some cl => if cnull cl then YES else EMP | None => EMP end.
 Definition index_rows (t : tbl) (i : idx) : list row :=
-  map (fun p => let '(n, x) := p in [tname t; bN (negb (iuniq i)); iname i; n; x; col_nullable t x])
-      (number_from 1 (icols i)).
+  map (fun p => let '(j, x) := p in [tname t; bN (negb (iuniq i)); iname i; N.of_nat j + 1; col_shown t x; col_nullable t x;
+                                     sub_part i j; col_expr t x])
+      (number_nat 0 (icols i)).
 Definition table_statistics_rows (t : tbl) : list row := flat_map (index_rows t) (all_idx t).
 Definition statistics_rows (c : cat) : list row := flat_map table_statistics_rows (tables c).
 
@@ -502,11 +548,18 @@ Definition show_is_mul (t : tbl) (x : name) : bool :=
 Definition show_key (t : tbl) (c : col) : N :=
   if cpk c then K_PRI else if show_is_pri t (cname c) then K_PRI
   else if show_is_unq t (cname c) then K_UNI else if show_is_mul t (cname c) then K_MUL else EMP.
+(* SHOW FULL COLUMNS: field, type, null, key, default, comment, collation (always the server default for text) *)
 Definition show_columns_rows (t : tbl) : list row :=
-  map (fun c => [cname c; cty c; yesno (cnull c); show_key t c]) (tcols t).
+  map (fun c => [cname c; cty c; yesno (cnull c); show_key t c; def_code (cdef c); ccom c; if is_string (cty c) then 1 else NUL])
+      (filter visible (tcols t)).
 Definition show_columns (c : cat) (n : name) : option (list row) := option_map show_columns_rows (find_tbl n c).
 Definition show_index_rows (t : tbl) (i : idx) : list row :=
-  map (fun p => let '(n, x) := p in [itab i; bN (negb (iuniq i)); iname i; n; x; col_nullable t x])
-      (number_from 1 (icols i)).
+  (* Sub_part is never filled in by SHOW INDEXES *)
+  map (fun p => let '(j, x) := p in [itab i; bN (negb (iuniq i)); iname i; N.of_nat j + 1; col_shown t x; col_nullable t x;
+                                     NUL; col_expr t x])
+      (number_nat 0 (icols i)).
 Definition show_indexes (c : cat) (n : name) : option (list row) :=
   option_map (fun t => flat_map (show_index_rows t) (all_idx t)) (find_tbl n c).
+
+(* SHOW CREATE TABLE t: the PRIMARY KEY (...) part list, in key order ([] when the table has no primary key) *)
+Definition show_create_pk (c : cat) (n : name) : option row := option_map pk_cols (find_tbl n c).
